@@ -29,8 +29,23 @@ class MI(tuple):
 _IDX = {}
 
 
-def new_index(*a, **k):
+def new_index(count=None, **k):
+    """ufl.Index(count): indices with equal counts are the same index"""
+    if count is None:
+        count = k.get("count")
+    if count is not None:
+        if isinstance(count, Idx):
+            return count
+        if count in _IDX:
+            return _IDX[count]
+        i = Idx()
+        i.id = count
+        i.name = f"i{count}"
+        _IDX[count] = i
+        return i
     i = Idx()
+    while i.id in _IDX:
+        i = Idx()
     _IDX[i.id] = i
     return i
 
@@ -86,7 +101,7 @@ def m_scalar(v=0):
 
 def m_indexed(A, mi):
     A = as_T(A)
-    r = uflsem.t_index(A, tuple(mi))
+    r = uflsem.t_index(A, tuple(mi), repeated="share")
     return node(r, "Indexed", (A, MI(mi)))
 
 
@@ -125,7 +140,7 @@ def m_product(a, b):
     a, b = as_T(a), as_T(b)
     if a.shape != () or b.shape != ():
         raise LiftRaise("ValueError: Product can only represent products of scalars")
-    return node(uflsem.t_mul(a, b), "Product", (a, b))
+    return node(uflsem.t_mul(a, b, repeated="share"), "Product", (a, b))
 
 
 def m_division(a, b):
